@@ -59,6 +59,18 @@ def check_exhaustive(run, A, qual, label, class_dim_of, want_loops=1, rule='R-SE
 
 
 # ------------------------------------------------------------------------------------------------ greedy retire loop
+def _is_unravel(t):
+    """(row, column) of a flat index into a (K, K) matrix: np.unravel_index(flat, matrix.shape) or divmod(flat, K) with K the unpacked class count"""
+    if is_call_to(t, 'numpy.unravel_index'):
+        return True
+    if is_call_to(t, 'builtin.divmod') and len(call_parts(t)[1]) == 2:
+        k = strip_views(call_arg(t, 1))
+        if k.op == 'unpack' and strip_views(k.args[0]).op == 'attr' and strip_views(k.args[0]).args[1] == 'shape':
+            return k.args[1] >= k.args[2] - 2 and (k.args[3] is not None or k.args[2] == 2)          # one of the last two entries of `*F, K, K_ = shape`
+        return k.op == 'sub' and strip_views(k.args[0]).op == 'attr' and strip_views(k.args[0]).args[1] == 'shape' and const_val(k.args[1]) in (-1, -2)
+    return False
+
+
 def check_greedy(run, A):
     q = P + '_mapping_from_score_matrix'
     fn = A.prog.func(q)
@@ -81,7 +93,7 @@ def check_greedy(run, A):
         kinds = []
         for it in items:
             it = strip_views(it)
-            if it.op == 'unpack' and is_call_to(strip_views(it.args[0]), 'numpy.unravel_index'):
+            if it.op == 'unpack' and _is_unravel(strip_views(it.args[0])):
                 kinds.append(('rc', it.args[1], strip_views(it.args[0])))
             elif is_call_to(it, 'builtin.slice') or it.op == 'slice':
                 kinds.append(('all',))
@@ -91,7 +103,7 @@ def check_greedy(run, A):
                 kinds.append(('?',))
         rc = [k for k in kinds if k[0] == 'rc']
         v = strip_views(val)
-        if v.op == 'unpack' and is_call_to(strip_views(v.args[0]), 'numpy.unravel_index'):
+        if v.op == 'unpack' and _is_unravel(strip_views(v.args[0])):
             assign = (e, kinds, v.args[1])
             unravel = strip_views(v.args[0])
         elif len(rc) == 1 and kinds[-1][0] == 'all' and rc[0][1] == 0:
@@ -115,6 +127,8 @@ def check_greedy(run, A):
         ok_as = len(rc) == 1 and rc[0][1] == 0 and comp == 1 and kinds[0][0] == 'rc'
         run.check(ok_as, 'R-SEL', 'greedy assignment: mapping[row] = column', fn.loc(e.node), '', 'the pick (row i, column j) is not recorded as mapping[i] = j', construct=f'R-SEL::{q}::row-to-column')
         am = call_arg(unravel, 0)
+        if is_call_to(am, 'builtin.int'):
+            am = call_arg(am, 0)          # divmod(int(flat), K)
         ok_am = is_call_to(am, 'numpy.argmax') and const_val(call_arg(am, None, 'axis')) == -1
         run.check(ok_am, 'R-SEL', 'greedy assignment: picks the arg-MAX of the remaining scores', fn.loc(unravel.node), '', 'the pick is not np.argmax over the flattened remaining matrix',
                   construct=f'R-SEL::{q}::argmax')
